@@ -194,6 +194,7 @@ func Load(conf Config) (*Prog, error) {
 	}
 	p.canonComparisons()
 	p.onceBodies()
+	p.resolveChanParams()
 	return p, nil
 }
 
